@@ -120,6 +120,7 @@ Op ==
      IF x.op = "mget"
      THEN LET bad == IF Uncertain(res) THEN {} ELSE MGetBad(adm, x.ks, res[2]) IN
           /\ \A k \in bad : Report("ReplyOK", k, Expected(adm[k], Req("get", k, <<>>, 0, 0)), res)
+          /\ (IF Uncertain(res) /\ ~faulted /\ retry = 0 THEN Report("ReplyOK", x.ks[1], "a complete reply", res) ELSE TRUE)
           /\ TierChecks(adm, now, faulted)
           /\ adm' = Resync(adm, now, faulted)
           /\ UNCHANGED <<now, faulted, twotier, retry>>
@@ -127,7 +128,9 @@ Op ==
               a2 == [adm EXCEPT ![x.k] = Narrow(@, r, res)]
               f2 == faulted \/ Uncertain(res)
           IN
-          /\ IF ReplyBad(adm[x.k], r, res) THEN Report("ReplyOK", x.k, Expected(adm[x.k], r), res) ELSE TRUE
+          \* without any fault an error reply, a closed connection or no reply at all is itself wrong
+          /\ IF ReplyBad(adm[x.k], r, res) \/ (Uncertain(res) /\ ~faulted /\ retry = 0)
+             THEN Report("ReplyOK", x.k, Expected(adm[x.k], r), res) ELSE TRUE
           /\ TierChecks(a2, now, f2)
           /\ adm' = Resync(a2, now, f2)
           /\ faulted' = f2
